@@ -48,7 +48,7 @@ def build_busy(rng, nframes):
     exp = []
     for k in range(nframes):
         bits, good = gen_frame(rng)
-        amp = 318 if k % 9 == 4 else rng.choice([1331, 1433])
+        amp = 318 if k % 45 == 30 else rng.choice([1331, 1433])
         buf += modulate(bits, amp, noise)
         if good:
             exp.append(hex_of(bits))
@@ -153,8 +153,8 @@ def cases(ctx):
             yield dict(op="demod - %d %s" % (DEN, ",".join(map(str, buf))), real=("h:props.C19.run_demod", [buf, DEN, None]),
                        pred=["pred_frames", e, 0], tag="tail-%d" % tail, info=dict(amp=amp, ratio=0.0, tail=tail), trivial=not exp)
     # long busy buffers (the noise floor must come from 100-microsecond windows)
-    for _ in range(ctx.n(4, 60)):
-        buf, exp = build_busy(rng, rng.randrange(130, 200))
+    for _ in range(ctx.n(2, 40)):
+        buf, exp = build_busy(rng, rng.randrange(410, 425))     # about 204800 samples, the reader's real buffer size
         e = ",".join(exp) if exp else "-"
         yield dict(op="demod - %d %s" % (DEN, ",".join(map(str, buf))), real=("h:props.C19.run_demod", [buf, DEN, None]),
                    pred=["pred_frames", e, 0], tag="busy", info=dict(amp=0, ratio=0.0))
